@@ -437,6 +437,10 @@ pub fn crash(case: &JsonValue) -> JsonValue {
         std::fs::rename(&live_path, &link_target).unwrap();
         std::os::unix::fs::symlink(&link_target, &live_path).unwrap();
     }
+    // ... or has a second hard link (a user's backup made with `ln`)
+    if case["live_hardlink"].as_bool().unwrap_or(false) && live_path.exists() {
+        std::fs::hard_link(&live_path, &link_target).unwrap();
+    }
     let inode_of = |p: &Path| -> JsonValue {
         use std::os::unix::fs::MetadataExt;
         match std::fs::metadata(p) {
